@@ -35,6 +35,10 @@ pub(crate) struct Execution {
 
     /// Log execution output to STDOUT
     pub(crate) log: bool,
+
+    /// Set when the execution has deadlocked. The scheduler reports it once
+    /// control is back outside of the modeled threads.
+    pub(crate) deadlock: Option<String>,
 }
 
 #[derive(Debug, Eq, PartialEq, Hash, Clone, Copy)]
@@ -69,6 +73,7 @@ impl Execution {
             max_history: 7,
             location: false,
             log: false,
+            deadlock: None,
         }
     }
 
@@ -128,6 +133,7 @@ impl Execution {
             max_history,
             location,
             log,
+            deadlock: None,
         })
     }
 
@@ -214,14 +220,20 @@ impl Execution {
         if !self.threads.is_active() {
             let terminal = self.threads.iter().all(|(_, th)| th.is_terminated());
 
-            assert!(
-                terminal,
-                "deadlock; threads = {:?}",
-                self.threads
-                    .iter()
-                    .map(|(i, th)| { (i, th.state) })
-                    .collect::<Vec<_>>()
-            );
+            if !terminal {
+                // Do not panic here, on the stack of a modeled thread: unwinding
+                // it would run destructors of loom objects (`Arc`, channel
+                // receivers, lock guards) against an execution that has no
+                // active thread, panic again and abort the process. Switch
+                // back to the scheduler, which reports the deadlock.
+                self.deadlock = Some(format!(
+                    "deadlock; threads = {:?}",
+                    self.threads
+                        .iter()
+                        .map(|(i, th)| { (i, th.state) })
+                        .collect::<Vec<_>>()
+                ));
+            }
 
             return true;
         }
